@@ -244,6 +244,9 @@ class _Simu(_IObserver, _params.Updatable, ABC):
             dofs = dofs[np.isin(dofs, ownedDofs)]
 
         K, C, M, _ = self.Get_K_C_M_F(problemType)
+        # with Lagrange conditions the matrices also carry the rows and columns of the multipliers
+        size = self._Get_u_n(problemType).size
+        K, C, M = K[:size, :size], C[:size, :size], M[:size, :size]
 
         reaction = np.zeros(K.shape[0], dtype=float)
 
